@@ -52,7 +52,7 @@ const (
 // Reader behaviours the truncated stream is delivered with. All are legal io.Readers.
 // "bufio": a *bufio.Reader (what ply.Load / stl.Load hand to the decoders; concrete-type fast paths
 // such as Peek/ReadString are only reachable this way); "bufio16": the same with a 16-byte buffer.
-var modes = []string{"bytes", "onebyte", "dataerr", "bufio", "bufio16"}
+var modes = []string{"bytes", "onebyte", "dataerr", "bufio", "bufio16", "behind7"}
 
 func reader(mode string, data []byte) io.Reader {
 	switch mode {
@@ -62,6 +62,8 @@ func reader(mode string, data []byte) io.Reader {
 		return bufio.NewReaderSize(bytes.NewReader(data), 16)
 	case "onebyte": // every Read returns at most one byte
 		return iotest.OneByteReader(bytes.NewReader(data))
+	case "behind7": // a seekable reader already read up to where the file starts
+		return core.Positioned(data, 7)
 	case "dataerr": // the last bytes arrive together with io.EOF
 		return iotest.DataErrReader(bytes.NewReader(data))
 	}
